@@ -87,7 +87,7 @@ func engCrashEvent(c Case, i int, how string) Ev {
 	none := map[string]interface{}{}
 	return Ev{"ev": "step", "case": c.ID, "i": i, "op": op, "ret": how,
 		"res": engNoRes(), "again": engNoRes(), "saved": engNoRes(),
-		"tmod": []string{}, "bmod": []string{}, "dmod": []string{}, "ptmod": []string{}, "pbmod": []string{}, "pdmod": []string{},
+		"tmod": []string{}, "bmod": []string{}, "dmod": []string{}, "ptmod": []string{}, "pbmod": []string{}, "pdmod": []string{}, "atmod": []string{}, "abmod": []string{},
 		"cache": none, "probe": none}
 }
 
